@@ -14,12 +14,12 @@ import (
 // C11 — Age and cache-status fields on responses tell the truth.
 func init() { register(&Check{ID: "C11", Run: runC11, ShardDepth: 2}) }
 
-var c11Paths = []string{"fresh-hit", "max-stale", "only-if-cached-fresh", "only-if-cached-stale", "swr", "sie-500", "sie-error", "sie-req-max-age0",
+var c11Paths = []string{"fresh-hit", "max-stale", "only-if-cached-fresh", "only-if-cached-stale", "swr", "sie-500", "sie-error", "sie-req-max-age0", "sie-request-only-max-age0",
 	"revalidated", "validated-200", "validated-500", "miss", "head", "post", "range", "504", "no-cache-304", "heuristic-hit"}
 
 func runC11(x *mc.X) {
 	path := mc.Pick(x, "path", c11Paths)
-	originAge := mc.Pick(x, "origin.age", []string{"", "0", "7", "x"})
+	originAge := mc.Pick(x, "origin.age", []string{"", "0", "7", "x", "99999999999999999999"})
 	skew := mc.Pick(x, "origin.date-skew", []int64{0, -5, 5})
 	delay := mc.Pick(x, "origin.delay", []int64{0, 3})
 	poison := x.Choose("origin.sends-cache-fields", 2) == 1
@@ -50,6 +50,8 @@ func runC11(x *mc.X) {
 		ccv, elapsedMenu, follow = "max-age=5, stale-if-error=100", []int64{10, 50, 90}, "error"
 	case "sie-req-max-age0":
 		ccv, reqCC, elapsedMenu, follow = "max-age=100, stale-if-error=100", "max-age=0", []int64{10, 50, 90}, "500"
+	case "sie-request-only-max-age0":
+		ccv, reqCC, elapsedMenu, follow = "max-age=100", "max-age=0, stale-if-error=1000", []int64{10, 50, 90}, "500"
 	case "revalidated":
 		ccv, elapsedMenu, follow = "max-age=5", []int64{10, 50, 5000}, "304"
 	case "no-cache-304":
@@ -216,6 +218,9 @@ func checkC11Fields(x *mc.X, path string, o, stored *world.Obs, st *oracle.Store
 		for _, a := range ages {
 			if got >= a-1 && got <= a+1 {
 				okAge = true
+			}
+			if a >= 1<<31 && got >= 1<<31 {
+				okAge = true // both saturate: a cache may clamp at 2^31 (RFC 9111 §1.2.2)
 			}
 		}
 		if !okAge {
